@@ -136,7 +136,11 @@ def geometries(draw, D, max_size=64):
     spacing, non-identity direction) get most of the weight."""
     d = draw(gen.directions(D, ("identity", "perm", "perm", "rotation", "rotation", "rotation", "reflection")))
     # (weights by an explicit integer draw: st.one_of() merges identical branches)
-    if draw(st.integers(0, 5)) == 0:
+    plain = draw(st.integers(0, 7)) == 0  # the default ITK header: unit spacing, identity direction (pure translation)
+    if plain:
+        d = {"rot": [0.0] * (1 if D == 2 else 3), "perm": list(range(D)), "flip": [1] * D, "kind": "identity"}
+        spacing = [1.0] * D
+    elif draw(st.integers(0, 5)) == 0:
         spacing = [draw(gen.logfloat(0.05, 20.0))] * D
     else:
         spacing = draw(st.lists(gen.logfloat(0.05, 20.0), min_size=D, max_size=D))
